@@ -47,7 +47,7 @@ IV32_LISTED = {
     "ext_header_path_decoder": "bound = data_len or data_len + 1, where data_len = ext_header_len - field_size - 1 at the only call chain (decode_extended_headers -> "
                                "lha_ext_header_decode -> table), ext_header_len being decoded from at most 32 bits and >= field_size + 1 there (proved for data_len by the "
                                "prover; the + 1 stays below 2^32 because data_len <= 2^32 - 4)",
-    "check_l0_checksum": "bound = raw_data_len - 2 of a level-0/1 base header, whose length is header_len + 2 with header_len a single byte (decode_level0_header extends "
+    "decode_level0_header": "(checksum loop, whether in place or in a helper folded in) bound = raw_data_len - 2 of a level-0/1 base header, whose length is header_len + 2 with header_len a single byte (decode_level0_header extends "
                          "the raw data to exactly that before calling); assumption A-hdr32",
     "skip_sfx": "bound = stream->leadin_len, which never exceeds LEADIN_BUFFER_LEN = 24 (inductive invariant leadin_len in [0,24] proved by C08 R1)",
 }
